@@ -127,12 +127,25 @@ class Ctx:
         # wall-clock budget: past this instant no new case is started (inconclusive for what was skipped, never a violation)
         self.deadline = float(os.environ.get("VERIF_DEADLINE", "inf"))
         self.budget_skipped = 0
+        self.stop_file = os.environ.get("VERIF_STOP_FILE") or None
+        self._t_stop_poll = 0.0
 
     def out_of_time(self):
-        if time.time() > self.deadline:
+        now = time.time()
+        if now > self.deadline:
             self.budget_skipped += 1
             return True
+        if self.stop_file and now - self._t_stop_poll > 0.5:
+            # fail-fast mode (sensitivity sweeps only): some worker has already saved a violation
+            self._t_stop_poll = now
+            if os.path.exists(self.stop_file):
+                self.deadline = 0.0
         return False
+
+    def found_one(self):
+        if self.stop_file:
+            open(self.stop_file, "w").close()
+            self.deadline = 0.0
 
     # -- direct reporting (enumerated macro-cases report micro-cases themselves) ----
     def report(self, sub, case, v, variant="-"):
@@ -329,6 +342,7 @@ def drive_hypothesis(sub, variant, ctx, n_examples, seed_int, shrink_budget_s):
             ctx.failures.append(dict(sub=sub.name, variant=variant, bucket=bucket_of(sub.name, v),
                                      kind=v.kind, message=v.msg[:600], replay=path, case=case))
             excluded.add(bucket_of(sub.name, v))
+            ctx.found_one()
         except HarnessError:
             raise
         except hypothesis.errors.Unsatisfiable as e:
@@ -354,6 +368,8 @@ def drive_enumeration(sub, variant, replica, nreplicas, ctx):
         v = run_case(sub, case, ctx)
         if v is not None:
             ctx.report(sub.name, v.extra.get("case", case), v, variant)
+        if ctx.stop_file and ctx.buckets:
+            ctx.found_one()
     ctx.flush()
 
 
